@@ -58,10 +58,10 @@ fn gen_cmd(rng: &mut Rng) -> Cmd {
         }
         5 => Cmd::Stop(gen_sref(rng)),
         6 => Cmd::ChangeWindow(gen_sref(rng), (*rng.pick(&["0,10", "5,50", "100,200", "7", "a,b", "", "3,2", "0,0,0"])).to_string()),
-        7 => Cmd::BinarySearch(gen_sref(rng), (*rng.pick(&["index=0", "index=5", "index=99999", "index=x", "time_ms=0", "time_ms=1600000300000", "time_ms=abc", "foo=1", "", "index"])).to_string()),
+        7 => Cmd::BinarySearch(gen_sref(rng), (*rng.pick(&["index=0", "index=5", "index=99999", "index=x", "time_ms=0", "time_ms=1600000300000", "time_ms=abc", "foo=1", "", "index", "time_ms=18446744073709551615", "time_ms=18446744073709552", "index=4294967295", "index=4294967296", "time_ms=-1"])).to_string()),
         8 => Cmd::Search(
             gen_sref(rng),
-            match rng.below(8) {
+            match rng.below(9) {
                 0 => None,
                 1 => Some("{".into()),
                 2 => Some(r#"{"start_idx":"x"}"#.into()),
@@ -69,11 +69,12 @@ fn gen_cmd(rng: &mut Rng) -> Cmd {
                 4 => Some(r#"{"max_results":0}"#.into()),
                 5 => Some(r#"{"filters":"x"}"#.into()),
                 6 => Some(format!(r#"{{"start_idx":{},"max_results":{}}}"#, rng.below(100), 1 + rng.below(5))),
+                8 => Some(format!(r#"{{"start_idx":{},"max_results":{}}}"#, *rng.pick(&["0", "18446744073709551615", "4294967296", "-1", "1.5"]), *rng.pick(&["18446744073709551615", "9223372036854775807", "4294967296", "0", "-1", "1e30"]))),
                 _ => Some("{}".into()),
             },
         ),
         9 => Cmd::PluginCmd((*rng.pick(&["", "{", "[]", r#"{"cmd":"save"}"#, r#"{"cmd":"save","name":"FileTransfer","params":{"saveAs":"/nonexistent/x"},"cmdCtx":{"save":{"idx":0}}}"#, r#"{"cmd":"x","name":"nope"}"#])).to_string()),
-        10 => Cmd::Fs((*rng.pick(&["", "{", "7", r#"{"cmd":"stat","path":"/"}"#, r#"{"cmd":"readDirectory","path":"/nonexistent"}"#, r#"{"cmd":"bogus"}"#, r#"{"path":"/"}"#])).to_string()),
+        10 => Cmd::Fs((*rng.pick(&["", "{", "7", r#"{"cmd":"stat","path":"/"}"#, r#"{"cmd":"readDirectory","path":"/nonexistent"}"#, r#"{"cmd":"bogus"}"#, r#"{"path":"/"}"#, r#"{"cmd":"stat","path":"@ROOT@/corrupt.zip!/x"}"#, r#"{"cmd":"readDirectory","path":"@ROOT@/corrupt.zip!/x"}"#, r#"{"cmd":"readDirectory","path":"@ROOT@/corrupt.zip!/"}"#, r#"{"cmd":"stat","path":"@ROOT@/trace.dlt!/x"}"#, r#"{"cmd":"readDirectory","path":"@ROOT@"}"#])).to_string()),
         11 => Cmd::Raw((*rng.pick(&["", " ", "bogus", "open", "stop", "stream", "query", "stream_search", "stream_change_window", "OPEN {}", "close now", "\u{1F600}", "stream_binary_search 1", "resume x", "plugin_cmd", "fs"])).to_string()),
         _ => {
             if rng.bool() {
@@ -112,6 +113,25 @@ pub fn gen_case(rng: &mut Rng, _tier: Tier) -> Case {
     let mut c = rng.sub("cmds");
     let n = c.urange(1, 25);
     let mut cmds = vec![];
+    if rng.sub("zip").chance(1, 12) {
+        // an archive is opened: extraction runs in a thread of its own; close/open at any moment relative to it
+        let mut z = rng.sub("zipcmds");
+        let open = |z: &mut Rng| Cmd::Open { variant: 16, sort: z.chance(1, 4), collect: (*z.pick(&["true", "true", "false"])).to_string() };
+        cmds.push(open(&mut z));
+        for _ in 0..z.urange(1, 8) {
+            cmds.push(match z.below(6) {
+                0 | 1 => Cmd::Close,
+                2 => open(&mut z),
+                3 => Cmd::Wait(*z.pick(&[1usize, 2, 5, 40, 300])),
+                4 => Cmd::Open { variant: 0, sort: false, collect: "true".to_string() },
+                _ => Cmd::Stream { query: z.bool(), body: r#"{"window":[0,50],"binary":true}"#.to_string() },
+            });
+        }
+        cmds.push(Cmd::Close);
+        let mut sched = SchedCfg::gen(&mut rng.sub("sched"));
+        sched.max_steps = 6_000_000;
+        return Case { s: Session { trace, cmds, sched, server_max_read: 0, poll_budget: 30_000 } };
+    }
     if rng.sub("one_pass").chance(1, 6) {
         cmds.push(Cmd::Open { variant: 0, sort: c.chance(1, 4), collect: "\"one_pass_streams\"".to_string() });
         for _ in 0..n {
@@ -233,7 +253,7 @@ pub fn check_transcript(s: &Session, t: &Transcript, ctx: &mut Ctx) -> Result<()
                 // ---- session model
                 let expect: Option<bool> = match cmd {
                     Cmd::Open { variant, .. } => match *variant {
-                        0 | 10 | 11 => Some(!open),
+                        0 | 10 | 11 | 16 => Some(!open),
                         // other input formats / mixed inputs: accepted or refused, but answered; never while a file is open
                         12..=15 => if open { Some(false) } else { None },
                         _ => Some(false),
@@ -278,12 +298,20 @@ pub fn check_transcript(s: &Session, t: &Transcript, ctx: &mut Ctx) -> Result<()
                                                     Err(_) => Some(false),
                                                     Ok(v) => {
                                                         let num_ok = |x: &serde_json::Value| x.is_null() || x.is_number();
+                                                        // negative or fractional numbers: accepted or refused, but answered
+                                                        let num_odd = |x: &serde_json::Value| x.is_number() && !x.is_u64();
+                                                        let odd = num_odd(&v["start_idx"]) || num_odd(&v["max_results"]);
                                                         let f_ok = match &v["filters"] {
                                                             serde_json::Value::Array(a) => a.iter().all(|f| adlt::filter::Filter::from_json(&f.to_string()).is_ok()),
                                                             serde_json::Value::Null => true,
                                                             _ => false,
                                                         };
-                                                        Some(num_ok(&v["start_idx"]) && num_ok(&v["max_results"]) && f_ok)
+                                                        if odd {
+                                                            ctx.probe("search_with_odd_numbers");
+                                                            None
+                                                        } else {
+                                                            Some(num_ok(&v["start_idx"]) && num_ok(&v["max_results"]) && f_ok)
+                                                        }
                                                     }
                                                 }
                                             }
@@ -343,6 +371,7 @@ pub fn check_transcript(s: &Session, t: &Transcript, ctx: &mut Ctx) -> Result<()
                                 13 => ctx.probe("opens_asc_file"),
                                 14 => ctx.probe("opens_mixed_dlt_logcat"),
                                 15 => ctx.probe("opens_genlog_file"),
+                                16 => ctx.probe("opens_zip_archive"),
                                 _ => {}
                             }
                             open = true;
@@ -486,7 +515,7 @@ impl Check for C15 {
     }
     fn assumptions() -> Vec<&'static str> {
         vec![
-            "the TCP accept/event loop is a cfg-guarded generic replica (hook H2) of remote()'s per-connection loop calling the real process_file_context/process_incoming_text_message; TLS-less in-memory transport; archive extraction during open is not simulated (plain files only)",
+            "the TCP accept/event loop is a cfg-guarded generic replica (hook H2) of remote()'s per-connection loop calling the real process_file_context/process_incoming_text_message; TLS-less in-memory transport; opens of a zip archive run the real extraction thread (utils/progress.rs is under the seam, so the scheduler decides when it runs relative to close/open)",
             "replies are recognised as text frames not starting with 'stream:'; ids are taken from replies, never assumed",
             "a query id is expected 'not found' iff its end-of-query frame precedes the reply in the totally ordered frame sequence",
             "liveness = reply within 30000 client polls (each poll lets the scheduler run other threads)",
@@ -499,6 +528,6 @@ impl Check for C15 {
         vec!["connection loop replica verif_serve (H2)", "in-memory duplex transport (SimStream)", "simulated clock / recv_timeout / sleep (seam)", "client (command generator + session model)"]
     }
     fn required_reach() -> Vec<&'static str> {
-        vec!["replies_ok", "replies_err", "replies_unknown_command", "opens", "closes", "streams_created", "window_changes", "try_send_full", "recv_timeout_timeout", "short_socket_reads", "opens_two_dlt_files", "opens_logcat_file", "opens_asc_file", "opens_genlog_file", "opens_mixed_dlt_logcat"]
+        vec!["replies_ok", "replies_err", "replies_unknown_command", "opens", "closes", "streams_created", "window_changes", "try_send_full", "recv_timeout_timeout", "short_socket_reads", "opens_zip_archive", "opens_two_dlt_files", "opens_logcat_file", "opens_asc_file", "opens_genlog_file", "opens_mixed_dlt_logcat"]
     }
 }
